@@ -161,6 +161,8 @@ class IndexRec(Record):
             return Record("dtype", kind="i")
         if attr == "size":
             return self.labels.length
+        if attr == "shape":
+            return (self.labels.length,)
         return Method(self, attr)
 
     def pyvc_getitem(self, ex, st, idx, node, prims):
